@@ -93,6 +93,7 @@ impl LookaheadDFA {
 
             // Filter the transitions with the matching from-state
             let mut any_matching_found = false;
+            let mut transition_taken = false;
             for i in 0..self.transitions.len() {
                 let current_transition = &self.transitions[i];
 
@@ -120,6 +121,7 @@ impl LookaheadDFA {
                             state, current_lookahead_token, current_transition.2
                         );
                         // Set the state to the to-state
+                        transition_taken = true;
                         state = current_transition.2;
                         prod_num = current_transition.3;
                         // Test if the production in this transition is a valid one.
@@ -142,6 +144,11 @@ impl LookaheadDFA {
                     }
                     _ => (),
                 }
+            }
+            if !transition_taken {
+                // No transition exists for this lookahead token in the current state. The
+                // automaton must stop here, later tokens must not be matched against this state.
+                break;
             }
         }
         if prod_num > INVALID_PROD {
